@@ -20,6 +20,7 @@ import (
 	"go/constant"
 	"go/token"
 	"go/types"
+	"strings"
 
 	"golang.org/x/tools/go/ssa"
 )
@@ -478,4 +479,194 @@ func loopCarried(p *Prog, v ssa.Value, l *Loop, allowLoad func(addr ssa.Value) b
 		return ""
 	}
 	return walk(v)
+}
+
+// contentDep reports how value v depends on the BYTES of parameter src of fn
+// (not merely on its length or nil-ness): a load of an element of src or of a
+// slice/element derived from it; a library call that receives it (other than
+// the ones in allow, judged by suffix of the callee's name); or an in-module
+// call whose result depends on the bytes of the corresponding parameter.
+// Returns "" when no such dependence exists on the slice examined.
+func contentDep(p *Prog, v ssa.Value, src *ssa.Parameter, allow []string, depth int) string {
+	derived := map[ssa.Value]bool{src: true}
+	// forward closure: containers derived from src
+	changed := true
+	fn := src.Parent()
+	for changed {
+		changed = false
+		for _, b := range fn.Blocks {
+			for _, in := range b.Instrs {
+				val, ok := in.(ssa.Value)
+				if !ok || derived[val] {
+					continue
+				}
+				mark := false
+				switch x := in.(type) {
+				case *ssa.Slice:
+					mark = derived[x.X]
+				case *ssa.IndexAddr:
+					mark = derived[x.X]
+				case *ssa.Index:
+					mark = derived[x.X] && !isScalar(x.Type())
+				case *ssa.UnOp:
+					if x.Op == token.MUL {
+						mark = derived[x.X] && !isScalar(x.Type())
+					}
+				case *ssa.ChangeType:
+					mark = derived[x.X]
+				case *ssa.Convert:
+					mark = derived[x.X] && !isScalar(x.Type())
+				case *ssa.Phi:
+					for _, e := range x.Edges {
+						if derived[e] {
+							mark = true
+						}
+					}
+				case *ssa.Range:
+					mark = derived[x.X]
+				case *ssa.Next:
+					mark = derived[x.Iter]
+				case *ssa.Extract:
+					mark = derived[x.Tuple] && !isScalar(x.Type())
+				}
+				if mark {
+					derived[val] = true
+					changed = true
+				}
+			}
+		}
+	}
+	seen := map[ssa.Value]bool{}
+	var walk func(v ssa.Value) string
+	walk = func(v ssa.Value) string {
+		if v == nil || seen[v] {
+			return ""
+		}
+		seen[v] = true
+		switch x := v.(type) {
+		case *ssa.Const, *ssa.Parameter, *ssa.Global, *ssa.FreeVar, *ssa.Function, *ssa.Builtin:
+			return ""
+		case *ssa.UnOp:
+			if x.Op == token.MUL && derived[x.X] && isScalar(x.Type()) {
+				return "the byte read at " + p.InstrPos(x)
+			}
+		case *ssa.Index:
+			if derived[x.X] && isScalar(x.Type()) {
+				return "the byte read at " + p.InstrPos(x)
+			}
+		case *ssa.Extract:
+			if nx, ok := x.Tuple.(*ssa.Next); ok && derived[nx.Iter] && x.Index == 2 {
+				return "the bytes ranged over at " + p.InstrPos(nx)
+			}
+		case *ssa.Call:
+			if b, ok := x.Call.Value.(*ssa.Builtin); ok {
+				if b.Name() == "len" || b.Name() == "cap" {
+					return ""
+				}
+			}
+			var args []ssa.Value
+			args = append(args, x.Call.Args...)
+			hasDerived := -1
+			for i, a := range args {
+				if derived[a] {
+					hasDerived = i
+				}
+			}
+			if x.Call.IsInvoke() && derived[x.Call.Value] {
+				hasDerived = 0
+			}
+			if hasDerived >= 0 {
+				name := calleeName(x.Common())
+				for _, a := range allow {
+					if strings.HasSuffix(name, a) {
+						return ""
+					}
+				}
+				callee := x.Call.StaticCallee()
+				if callee == nil || callee.Blocks == nil || !InModule(callee) {
+					return "the call " + shortCallee(name) + " at " + p.InstrPos(x) + ", which receives it"
+				}
+				if depth >= 3 {
+					return "the call " + shortCallee(name) + " at " + p.InstrPos(x) + " (not followed further)"
+				}
+				for i, a := range args {
+					if !derived[a] || i >= len(callee.Params) {
+						continue
+					}
+					for _, cb := range callee.Blocks {
+						ret, ok := cb.Instrs[len(cb.Instrs)-1].(*ssa.Return)
+						if !ok {
+							continue
+						}
+						for _, rv := range ret.Results {
+							if w := contentDep(p, rv, callee.Params[i], allow, depth+1); w != "" {
+								return w + " (in " + shortName(callee) + ")"
+							}
+						}
+						// the verdict of the callee may also hang on a branch
+						for _, cb2 := range callee.Blocks {
+							if ifi, ok := cb2.Instrs[len(cb2.Instrs)-1].(*ssa.If); ok {
+								if w := contentDep(p, ifi.Cond, callee.Params[i], allow, depth+1); w != "" {
+									return w + " (in " + shortName(callee) + ")"
+								}
+							}
+						}
+					}
+				}
+				return ""
+			}
+		}
+		in, ok := v.(ssa.Instruction)
+		if !ok {
+			return ""
+		}
+		for _, op := range in.Operands(nil) {
+			if op == nil || *op == nil {
+				continue
+			}
+			if w := walk(*op); w != "" {
+				return w
+			}
+		}
+		return ""
+	}
+	return walk(v)
+}
+
+func isScalar(t types.Type) bool {
+	b, ok := t.Underlying().(*types.Basic)
+	return ok && b.Info()&(types.IsInteger|types.IsBoolean) != 0
+}
+
+func shortCallee(n string) string {
+	if i := strings.LastIndex(n, "/"); i >= 0 {
+		return n[i+1:]
+	}
+	return n
+}
+
+// verdictIndependentOf: no rejecting edge of fn is decided by the bytes of
+// parameter src. Returns the offending description, and the number of
+// rejecting edges examined.
+func verdictIndependentOf(p *Prog, fn *ssa.Function, src *ssa.Parameter, allow []string) (string, int) {
+	ff := p.Facts(fn)
+	edgeOK := acceptingEdges(ff, fn)
+	n := 0
+	for _, b := range fn.Blocks {
+		if ff.dead[b] {
+			continue
+		}
+		ifi, ok := b.Instrs[len(b.Instrs)-1].(*ssa.If)
+		if !ok || len(b.Succs) != 2 {
+			continue
+		}
+		if edgeOK(b, b.Succs[0]) == edgeOK(b, b.Succs[1]) {
+			continue
+		}
+		n++
+		if w := contentDep(p, ifi.Cond, src, allow, 0); w != "" {
+			return "the rejection at " + p.InstrPos(ifi) + " depends on " + w, n
+		}
+	}
+	return "", n
 }
